@@ -396,7 +396,8 @@ def r7(repo, res):
         me = Obj(gene=gene, profile=prof, name="SAMPLE", _multi_sites={}, _prefix="",
                  _indel_sites={(105, "insTT"): [3, indel_support], (106, "delG"): [4, 0]},
                  _dump_cn=collections.defaultdict(int, {200: 3, 201: 4}), _fusion_counter={"f": [1, 2]},
-                 phases={"a": {103: "A>C", 108: "_"}, "b": {103: "A>C"}, "c": {106: "delG", 103: "_"}}, coverage=None)
+                 phases={"a": {103: "A>C", 108: "_"}, "b": {103: "A>C"}, "c": {106: "delG", 103: "_"}, "d": {103: "_", 108: "_"}},   # d: a fragment showing the reference at two sites
+                 coverage=None)
         return norm, muts, me
 
     def cov_of(me, norm, muts):
@@ -738,6 +739,8 @@ MUTANTS = [
          old="            self._make_coverage(norm, muts)\n            if self.kind", new="            if self.kind"),
     dict(name="R8 member matched by a dot-delimited gene name anywhere in it (seeded X4_4 shape)", module="sam", expect=["C17.R8", "C17.R4"],
          old='if i.endswith(f".{self.gene.name}.dump")]', new='if i.endswith(".dump") and f".{self.gene.name}." in i]'),
+    dict(name="R7 fragments showing only reference alleles left out of the archive (seeded X7_2 shape)", module="sam", expect="C17.R7",
+         old="                    [v for v in self.phases.values() if len(v) > 1],", new="                    [v for v in self.phases.values() if len(v) > 1 and any(a != \"_\" for a in v.values())],"),
     dict(name="R8 debug run skipped", module="__main__", expect="C17.R8",
          old="                run(prefix)\n", new="                pass\n"),
     dict(name="benign: archive only when the run did not crash", module="__main__", kind="benign",
